@@ -333,28 +333,36 @@ def unreadable_record(ctx):
         os.makedirs(os.path.join(d, "e1"))
         open(os.path.join(d, "r", "nox", "f"), "wb").close()
         os.symlink("nox/f", os.path.join(d, "r", "l2"))
+        open(os.path.join(d, "ref"), "wb").close()
+        os.makedirs(os.path.join(d, "r", "nox2"))
+        os.symlink("f", os.path.join(d, "r", "nox2", "l"))
         os.chmod(d, 0o755)
         pre = kc.unprivileged(d.encode())
         if pre is None:
             ctx.notes.append("unreadable_record: no unprivileged user available here, scenario skipped")
             return
         os.chmod(os.path.join(d, "r", "nox"), 0o444)
+        os.chmod(os.path.join(d, "r", "nox2"), 0o444)
         os.chmod(os.path.join(d, "e1"), 0o311)
         rows = [(["r/l2", "(", "-xtype", "f", "-o", "-xtype", "l", "-o", "-xtype", "d", ")"], "r/l2"),
                 (["r/nox", "-mindepth", "1", "-nouser"], "r/nox/f"), (["r/nox", "-mindepth", "1", "-nogroup"], "r/nox/sub"),
                 (["r/nox", "-mindepth", "1", "(", "-user", "0", "-o", "!", "-user", "0", ")", "-links", "+0"], "r/nox/f"),
-                (["e1", "-maxdepth", "0", "-empty"], "e1")]
-        for args, entry in rows:
+                (["e1", "-maxdepth", "0", "-empty"], "e1"),
+                (["r/nox", "-mindepth", "1", "-samefile", "ref"], "r/nox/sub"), (["r/nox2", "-mindepth", "1", "-lname", "f"], "r/nox2/l")]
+        rows = [r + (True,) for r in rows]
+        # under a negation the entry is listed (the test was false), but not without the diagnostic and the exit status
+        rows += [(["r/nox", "-mindepth", "1", "!", "-samefile", "ref"], "r/nox/f", False), (["r/nox2", "-mindepth", "1", "!", "-lname", "f"], "r/nox2/l", False)]
+        for args, entry, unlisted in rows:
             p = subprocess.run(pre + [fw.FIND] + args, stdout=subprocess.PIPE, stderr=subprocess.PIPE, cwd=d, env=xc.ENV, timeout=60)
             ctx.count(("unreadable-record", tuple(args)), True, "unreadable-record")
-            listed = entry.encode() in p.stdout.split(b"\n")
+            listed = unlisted and entry.encode() in p.stdout.split(b"\n")
             if listed or p.returncode != 1 or entry.encode() not in p.stderr:
                 ctx.violation("find %s as an unprivileged user: %s %s, exit %d, diagnostics %r; its status cannot be read: not matched, diagnosed, exit 1"
                               % (" ".join(args), entry, "is listed" if listed else "is not listed", p.returncode, p.stderr[:120]),
                               {"property": "C13", "kind": "unreadable-record", "find_args": args, "entry": entry, "exit": p.returncode,
                                "stdout": p.stdout.decode("utf-8", "replace"), "stderr": p.stderr.decode("utf-8", "replace")[:300]})
     finally:
-        for sub in (("r", "nox"), ("e1",)):
+        for sub in (("r", "nox"), ("r", "nox2"), ("e1",)):
             try:
                 os.chmod(os.path.join(d, *sub), 0o755)
             except OSError:
@@ -371,7 +379,9 @@ def perm_prefix_octal(ctx, forest):
         open(os.path.join(d, name), "wb").close()
         os.chmod(os.path.join(d, name), mode)
     for op, want in (("-+644", [b"pp/a"]), ("/+044", [b"pp/a", b"pp/c"]), ("-+0", [b"pp/a", b"pp/b", b"pp/c"]), ("-=600", [b"pp/a", b"pp/b"]),
-                     ("+644", None), ("--+4", None), ("-+-4", None), ("/=+4", None)):
+                     ("+644", None), ("--+4", None), ("-+-4", None), ("/=+4", None), ("+644,u+x", None),
+                     # an octal number with an operator is a clause like any other
+                     ("=644,u+x", []), ("=600,g+r,+4", [b"pp/a"]), ("-u+r,+4", [b"pp/a"]), ("/=0,+40", [b"pp/a"]), ("u=rw,=4", [b"pp/c"]), ("-=4,-4", [b"pp/a", b"pp/b", b"pp/c"])):
         line = "find - %s %s" % (fw.hexs(forest.dir), xc.hexlist([b"pp", b"-type", b"f", b"-perm", op.encode(), b"-print0"]))
         code, out, err = wc.decode_find(xc.run_impl([line])[0])
         got = sorted(out.split(b"\0")[:-1])
